@@ -88,6 +88,20 @@ def run(chk):
         chk.violation("event-kernel correspondence (evdrv vs evmain) differs at log line %s: impl '%s' vs model '%s', but the "
                       "implementation's log is accepted by Monitor.C01 (handle numbering only)" % (d["index"], d["impl"], d["model"]),
                       "\n".join(lines), False)
+    # ---- process level: the same kernel driven by the process layer (wake-ups of event waiters, timers, same-instant cascades):
+    #      complete logs against the process-layer model, clock-monotonicity and "woken at the event's time" clauses on every log
+    if proved and not chk.violations and drivers_ok:
+        import simcheck
+        ev = {k: chk.cov.get(k) for k in ("evaluations", "distinct_nontrivial", "traces_validated_against_impl", "rule", "input_distribution", "samples")}
+        simcheck.run(chk, ["timers", "lifecycle", "evgrow", "mixed"], total_quick=3000, total_thorough=30000)
+        chk.cov["evaluations"] += ev["evaluations"]
+        chk.cov["distinct_nontrivial"] += ev["distinct_nontrivial"]
+        chk.cov["traces_validated_against_impl"] += ev["traces_validated_against_impl"]
+        chk.cov["rule"] = ev["rule"] + " Additionally, at the process level: " + chk.cov["rule"]
+        chk.cov["input_distribution"] = {"event_scripts": ev["input_distribution"], "process_scenarios": chk.cov["input_distribution"]}
+        chk.cov["samples"] = (ev["samples"] or []) + chk.cov.get("samples", [])
+        chk.cov["trusted_base"] = TRUSTED + ["hand-written process-layer model CimbaModel/Sim (its event kernel is Event/Model.lean), tied by harness/simdrv.c"]
+        return
     if not proved and not chk.violations:
         found = False
         if tgen_ok:
@@ -106,6 +120,9 @@ def run(chk):
 
 
 def replay(chk, path):
+    if any(l.startswith("proc ") for l in open(path)):
+        import simcheck
+        return simcheck.replay(chk, path)
     impl = vlib.build_impl("hook")
     gen_orders.run(impl)
     vlib.lake_build(["evmain"])
